@@ -109,7 +109,7 @@ def analyse(ctx, case, run, S):
                     if ans == 'unsat':
                         hit = v
                         break
-            ctx.expect(hit is not None, 'C13:final-mask-not-rng:' + nm_, '%s run %d: the final masking scalar %s is not a transcript-RNG output' % (case['name'], ri, nm_), cfg, 'nonces_repeat', {'x': x})
+            ctx.expect(hit is not None, 'C13:final-mask-not-rng:' + nm_, '%s run %d: the final masking scalar %s is not a transcript-RNG output' % (case['name'], ri, nm_), cfg, 'nonce_hedge_broken', {'x': x})
             if hit is not None:
                 names[nm_] = hit['name']
                 ctx.D.record('valid-eq', '%s: %s is the RNG output %s' % (case['name'], nm_, hit['name']), 'unsat', 0.0, 'unsat')
@@ -129,7 +129,7 @@ def analyse(ctx, case, run, S):
             st = run.core['rng_states'][b['state']]
             has_ext = any('blob' in p and run.core['blobs'][p['blob']]['t'] == 'ext' for p in st['ext'])
             ctx.expect(has_ext, 'C13:nonce-without-external-randomness', '%s run %d: %s is drawn from an RNG state that did not absorb the external RNG' % (case['name'], ri, cname), cfg,
-                       'nonce_shared_across_runs', {'which': cname})
+                       'nonce_hedge_broken', {'which': cname})
         # seed-derived ones: exactly the documented function of the seed
         if seeded:
             seed_node = run.out['members'][ri]['seed_node']
